@@ -187,21 +187,26 @@ func sitesReaching(c *Check, in *ssa.Function, set map[*ssa.Function]bool) []ssa
 // same clause are decided by the same rule, each under its own name.
 func shareRule(c *Check, newID, doc string, min int, oldID string, run func(sub *Check), keep func(key string) bool) {
 	c.Rule(newID, doc, min)
-	sub := engine.NewCheck("tmp", c.P, c.G)
+	sub := newSubCheck(c)
 	run(sub)
 	for _, o := range sub.Obls {
 		if !strings.HasPrefix(o.Key, oldID+"/") || (keep != nil && !keep(o.Key)) {
 			continue
 		}
-		k := strings.TrimPrefix(o.Key, oldID+"/")
-		switch o.Status {
-		case engine.Discharged:
-			c.OK(newID, k, o.Witness, o.Pos)
-		case engine.Violated:
-			c.Bad(newID, k, o.Witness, o.Pos)
-		default:
-			c.Unknown(newID, k, o.Witness, o.Pos)
-		}
+		refile(c, newID, strings.TrimPrefix(o.Key, oldID+"/"), o)
+	}
+}
+
+func newSubCheck(c *Check) *Check { return engine.NewCheck("tmp", c.P, c.G) }
+
+func refile(c *Check, newID, k string, o *engine.Obligation) {
+	switch o.Status {
+	case engine.Discharged:
+		c.OK(newID, k, o.Witness, o.Pos)
+	case engine.Violated:
+		c.Bad(newID, k, o.Witness, o.Pos)
+	default:
+		c.Unknown(newID, k, o.Witness, o.Pos)
 	}
 }
 
